@@ -22,7 +22,7 @@ BOUND = {"quick": "11 tissues (two of them handed over as a series with cm=True,
          "thorough": "15 tissues x all inter-breakpoint limits x 2 modes x 3 back-ends"}
 ASSUMPTIONS = ["junction opening angles are taken from the library's own public versors (get_versor_from_vertex); their accuracy is C02's subject. They are cross-checked against analytic angles away from breakpoints",
                "a limit exactly equal to an opening angle is not generated"]
-REQUIRED_TAGS = {"all": ["excluded_some", "excluded_all", "excluded_none", "lsq_with_exclusions", "velocity", "fourfold", "restricted_unique"]}
+REQUIRED_TAGS = {"all": ["excluded_some", "excluded_all", "excluded_none", "lsq_with_exclusions", "velocity", "fourfold", "restricted_unique", "default_after_strict_limit"]}
 
 
 def jitter_square(n, amp, pattern):
@@ -217,6 +217,12 @@ class Limits:
         kw = {} if limit == float("inf") else {"angle_limit": limit}
         if limit == math.pi:
             kw = {}     # ForSys default
+        if not kw:
+            # the call that relies on the default limit comes right after a build with the strictest explicit limit of this tissue
+            # (same object, no explicit options in between): an earlier limit must not stick
+            strict = min(x for x in self.lims(d["t"]) if x < math.pi)
+            fsutil.call(s.build_force_matrix, when=0, angle_limit=strict)
+            tags.append("default_after_strict_limit")
         _, ex = fsutil.call(s.build_force_matrix, when=0, **kw)
         if ex is not None:
             return {"viol": [{"what": "build_force_matrix raised", "detail": fsutil.exc_str(ex)}], "tags": [], "cls": "exc"}
